@@ -19,7 +19,28 @@ CranScope(cs) == LET q == CranComps(cs) IN
                    Len(q) >= 2 /\ \A i \in 1..Len(q) : q[i] # <<>> /\ AllDigits(q[i])
 CranCmp(a, b) == SeqCmp(CranComps(a), CranComps(b), NumCmp)
 
-DocEcos == {"cran"}
-DocScope(eco, cs) == CASE eco = "cran" -> CranScope(cs) [] OTHER -> FALSE
-DocCmp(eco, a, b) == CASE eco = "cran" -> CranCmp(a, b) [] OTHER -> 2
+\* mattermost (the package's own documentation): [v]MAJOR.MINOR.PATCH[-rcN | -esrN]; numbers without leading zeros;
+\* the core compares numerically; for one core, rcN < esrN < the plain release; N (absent = 0) orders within a kind.
+MmParse(cs) ==
+  LET t    == Trim(cs)
+      u    == IF t # <<>> /\ t[1] = 118 THEN SubSeq(t, 2, Len(t)) ELSE t
+      h    == IndexOf(u, 45)
+      core == SplitAt(IF h = 0 THEN u ELSE SubSeq(u, 1, h - 1), 46)
+      q    == IF h = 0 THEN <<>> ELSE SubSeq(u, h + 1, Len(u))
+      kind == IF h = 0 THEN 3
+              ELSE IF Len(q) >= 2 /\ SubSeq(q, 1, 2) = <<114, 99>> THEN 1
+              ELSE IF Len(q) >= 3 /\ SubSeq(q, 1, 3) = <<101, 115, 114>> THEN 2 ELSE 0
+      num  == IF kind = 1 THEN SubSeq(q, 3, Len(q)) ELSE IF kind = 2 THEN SubSeq(q, 4, Len(q)) ELSE <<>>
+  IN [core |-> core, kind |-> kind, num |-> num]
+MmNumOk(d) == d # <<>> /\ AllDigits(d) /\ (Len(d) = 1 \/ d[1] # 48)
+MmScope(cs) == LET x == MmParse(cs) IN
+                 Len(x.core) = 3 /\ (\A i \in 1..3 : MmNumOk(x.core[i])) /\ x.kind # 0 /\ AllDigits(x.num)
+MmCmp(a, b) ==
+  LET x == MmParse(a)  y == MmParse(b)
+      c == SeqCmp(x.core, y.core, NumCmp) IN
+  IF c # 0 THEN c ELSE IF x.kind # y.kind THEN Sign(x.kind - y.kind) ELSE NumCmp(x.num, y.num)
+
+DocEcos == {"cran", "mattermost"}
+DocScope(eco, cs) == CASE eco = "cran" -> CranScope(cs) [] eco = "mattermost" -> MmScope(cs) [] OTHER -> FALSE
+DocCmp(eco, a, b) == CASE eco = "cran" -> CranCmp(a, b) [] eco = "mattermost" -> MmCmp(a, b) [] OTHER -> 2
 =============================================================================
